@@ -7,6 +7,7 @@ workload is never aborted.
 from __future__ import annotations
 
 import re
+import weakref
 from typing import Any
 
 import numpy as np
@@ -20,14 +21,19 @@ _DESC_CACHE: dict[int, tuple[Any, dict]] = {}
 
 
 def desc_for(inst) -> dict:
+    # (weak references: a monitor must not keep the observed objects alive -
+    # lifetimes, and with them addresses, are part of what can go wrong)
     key = id(inst)
     hit = _DESC_CACHE.get(key)
-    if hit is not None and hit[0] is inst:
+    if hit is not None and hit[0]() is inst:
         return hit[1]
     d = wb.desc_of(inst, "live")
     if len(_DESC_CACHE) > 2000:
         _DESC_CACHE.clear()
-    _DESC_CACHE[key] = (inst, d)
+    try:
+        _DESC_CACHE[key] = (weakref.ref(inst), d)
+    except TypeError:
+        pass
     return d
 
 
@@ -166,6 +172,7 @@ class PackingMonitor:
                     def post(self, x, result):
                         return mon.eval_post(k, self, x, result)
                     return post
+                cls._verif_orig_evaluate = cls.evaluate   # multi-thread use
                 cls.evaluate = icontract.ensure(
                     mk(key), error=ContractBroken)(cls.evaluate)
 
